@@ -32,6 +32,11 @@ type nilState struct {
 	b     *ssa.BasicBlock
 	facts map[ssa.Value]int8
 	alias map[*ssa.Phi]ssa.Value
+	// cells: what a local variable that lives in memory (a named result, a
+	// variable captured by a closure that only reads it) holds on this path;
+	// loads: the value each load of such a variable yielded
+	cells map[*ssa.Alloc]ssa.Value
+	loads map[*ssa.UnOp]ssa.Value
 }
 
 func (s *nilState) resolve(v ssa.Value) ssa.Value {
@@ -39,6 +44,12 @@ func (s *nilState) resolve(v ssa.Value) ssa.Value {
 		switch x := v.(type) {
 		case *ssa.Phi:
 			a, ok := s.alias[x]
+			if !ok {
+				return v
+			}
+			v = a
+		case *ssa.UnOp:
+			a, ok := s.loads[x]
 			if !ok {
 				return v
 			}
@@ -74,12 +85,19 @@ func (s *nilState) nilness(v ssa.Value) int8 {
 }
 
 func (s *nilState) clone(b *ssa.BasicBlock) *nilState {
-	n := &nilState{b: b, facts: make(map[ssa.Value]int8, len(s.facts)+1), alias: make(map[*ssa.Phi]ssa.Value, len(s.alias)+2)}
+	n := &nilState{b: b, facts: make(map[ssa.Value]int8, len(s.facts)+1), alias: make(map[*ssa.Phi]ssa.Value, len(s.alias)+2),
+		cells: make(map[*ssa.Alloc]ssa.Value, len(s.cells)), loads: make(map[*ssa.UnOp]ssa.Value, len(s.loads))}
 	for k, v := range s.facts {
 		n.facts[k] = v
 	}
 	for k, v := range s.alias {
 		n.alias[k] = v
+	}
+	for k, v := range s.cells {
+		n.cells[k] = v
+	}
+	for k, v := range s.loads {
+		n.loads[k] = v
 	}
 	return n
 }
@@ -89,7 +107,7 @@ func (s *nilState) clone(b *ssa.BasicBlock) *nilState {
 // return reached, with the facts of that path. It answers false when some
 // call of atReturn did, or when the exploration had to be abandoned.
 func nilPaths(from *ssa.BasicBlock, init map[ssa.Value]int8, atReturn func(ret *ssa.Return, s *nilState) bool) bool {
-	start := &nilState{b: from, facts: map[ssa.Value]int8{}, alias: map[*ssa.Phi]ssa.Value{}}
+	start := &nilState{b: from, facts: map[ssa.Value]int8{}, alias: map[*ssa.Phi]ssa.Value{}, cells: map[*ssa.Alloc]ssa.Value{}, loads: map[*ssa.UnOp]ssa.Value{}}
 	for k, v := range init {
 		start.facts[k] = v
 	}
@@ -104,6 +122,20 @@ func nilPaths(from *ssa.BasicBlock, init map[ssa.Value]int8, atReturn func(ret *
 		b := s.b
 		if len(b.Instrs) == 0 {
 			return true
+		}
+		for _, in := range b.Instrs {
+			switch x := in.(type) {
+			case *ssa.Store:
+				if al, ok := x.Addr.(*ssa.Alloc); ok && trackedCell(al) {
+					s.cells[al] = s.resolve(x.Val)
+				}
+			case *ssa.UnOp:
+				if al, ok := x.X.(*ssa.Alloc); ok && x.Op == token.MUL {
+					if v, known := s.cells[al]; known {
+						s.loads[x] = v
+					}
+				}
+			}
 		}
 		switch last := b.Instrs[len(b.Instrs)-1].(type) {
 		case *ssa.Return:
@@ -257,4 +289,38 @@ func nilOnlyAfterSuccess(fn *ssa.Function, call *ssa.Call) bool {
 		return false
 	})
 	return ok && seenSuccess
+}
+
+// trackedCell: al is a local variable in memory that only this function
+// writes: every use is a load, a store to it, or its capture by a function
+// literal that never stores to it (a deferred clean-up that reads the error).
+func trackedCell(al *ssa.Alloc) bool {
+	for _, ref := range *al.Referrers() {
+		switch x := ref.(type) {
+		case *ssa.Store:
+			if x.Addr != ssa.Value(al) {
+				return false // its address escapes
+			}
+		case *ssa.UnOp, *ssa.DebugRef:
+		case *ssa.MakeClosure:
+			g, _ := x.Fn.(*ssa.Function)
+			if g == nil {
+				return false
+			}
+			for i, bnd := range x.Bindings {
+				if bnd != ssa.Value(al) || i >= len(g.FreeVars) {
+					continue
+				}
+				for _, r2 := range *g.FreeVars[i].Referrers() {
+					if u, ok := r2.(*ssa.UnOp); ok && u.Op == token.MUL {
+						continue
+					}
+					return false
+				}
+			}
+		default:
+			return false
+		}
+	}
+	return true
 }
